@@ -1,10 +1,10 @@
 #!/bin/bash
-# Offline setup: warm the Kani and native builds of the harness crate (dependencies only change with /repo).
-set -e
+# Offline setup: regenerate the corpus-derived harness sources and warm the Kani and native builds.
 cd "$(dirname "$0")"
 export CARGO_NET_OFFLINE=true
 mkdir -p .build
 python3 driver/gen_manifest.py >/dev/null
-( cd harness && RUSTFLAGS="--cfg pest_typed_verif" cargo build --offline --target-dir ../.build/native --bin replay >/dev/null 2>&1 ) || echo "warning: native warm-up build failed"
+( cd refgen && cargo build --offline --target-dir ../.build/refgen >/dev/null 2>&1 && ../.build/refgen/debug/refgen ../corpus ../harness/src/gen >/dev/null ) || echo "warning: refgen failed; using the committed harness/src/gen"
+( cd harness && RUSTFLAGS="--cfg pest_typed_verif" cargo build --offline --target-dir ../.build/native --bin replay --bin refcheck >/dev/null 2>&1 ) || echo "warning: native warm-up build failed"
 ( cd harness && cargo kani --target-dir ../.build/kani -Z unstable-options -Z stubbing --only-codegen --exact --harness c13::c13_span_new_3 >/dev/null 2>&1 ) || echo "warning: kani warm-up build failed"
 echo "setup done"
